@@ -7,7 +7,7 @@ build the property's Lean theorems, audit axioms, write evidence/<ID>.json.
 Exit 0 = property shown on everything explored; exit 1 + `VIOLATION property=<ID> replay=<path>`."""
 import sys, os, json, time, random, argparse, collections
 sys.path.insert(0, os.path.dirname(os.path.abspath(__file__)))
-import fmlib, gen, gen_consts, suites
+import fmlib, gen, gen_consts, suites, cexpr
 from fmlib import log, Variant
 
 TRUSTED_BASE = [
@@ -139,6 +139,14 @@ def main():
             for line, why in post(res)[:50]:
                 oracle_fail.append((line, v.name, "ok %s" % res.get(line), why))
 
+    # constant-evaluation leg (C08): the model's value must be accepted as a constant expression
+    ce_stats = None
+    if getattr(suite, "constexpr", False):
+        mo_ab = model_by_be.get("ab") or fmlib.run_parallel(driver, [l.replace(":dflt", ":ab") for l in lines])[0]
+        ce_stats, ce_fail = cexpr.run(lines, mo_ab, suites.parse_line, tier, 350 if tier == "quick" else 4000)
+        for f in ce_fail:
+            oracle_fail.append((f["input"] or "<translation unit>", "constant-evaluation " + f["config"], "compile error",
+                                "not accepted as a constant expression equal to the run-time/model value %s: %s" % (f.get("expected"), f["error"])))
     # 4. Lean theorems ------------------------------------------------------------------------
     lean = lean_obligations(suite, tier)
 
@@ -180,6 +188,7 @@ def main():
     cov["divergences"] = len(diverge)
     cov["model_ub_results"] = model_ub
     cov["ub_reports"] = ub_reports[:5]
+    if ce_stats is not None: cov["constant_evaluation_leg"] = ce_stats
     cov["translator"] = {"changed": g["changed"], "table_sha": g.get("table_sha")}
     cov["notes"] = notes
     ev["assumptions"] = ["the theorems are about the Lean model; the model is tied to /repo by this run's correspondence (%d comparisons, %d divergences)" % (evals, len(diverge))]
